@@ -188,5 +188,13 @@ def generate_jaqal_value(val):
         or isinstance(val, AnnotatedValue)
     ):
         return val.name
-    elif isinstance(val, float) or isinstance(val, int):
+    elif isinstance(val, float):
+        text = str(val)
+        if "e" in text and "." not in text:
+            # The Jaqal lexer only reads a number with an exponent if it
+            # also has a decimal point.
+            mantissa, exponent = text.split("e")
+            text = f"{mantissa}.0e{exponent}"
+        return text
+    elif isinstance(val, int):
         return str(val)
